@@ -1,16 +1,23 @@
 #!/bin/sh
 # tools/seedcheck.sh SEEDDIR NAME PROP...  : confirm a seeded change (patch.diff + demo.py in SEEDDIR) and run checks on it.
 # - applies the patch to a private copy of /repo, runs the repository test suite, the demo with and without the
-#   change, then ./check for each property against the changed copy. Leaves nothing behind.
+#   change, then ./check (no proof re-check) for each property against the changed copy, everything the run writes
+#   going below /tmp/seedcheck_NAME.out (VERIF_SCRATCH). Leaves nothing behind except LOG=/verif/work/seedlogs/NAME.log.
 SD="$1"; NAME="$2"; shift 2
 M=/tmp/seedcheck_$NAME
-rm -rf $M && cp -r /repo $M
-( cd $M && git apply "$SD/patch.diff" ) || { echo "PATCH DOES NOT APPLY"; rm -rf $M; exit 2; }
-echo "== tests with change:"; ( cd $M && /venv/bin/python -m pytest -q -p no:cacheprovider -n 8 --timeout=900 2>&1 | tail -1 )
-echo "== demo with change (expect non-zero):"; ( cd $M && /venv/bin/python "$SD/demo.py" >/tmp/seedcheck_demo.out 2>&1; echo "exit=$?"; tail -2 /tmp/seedcheck_demo.out )
-echo "== demo on unchanged tree (expect 0):"; ( cd /repo && PYTHONDONTWRITEBYTECODE=1 /venv/bin/python "$SD/demo.py" >/tmp/seedcheck_demo.out 2>&1; echo "exit=$?"; tail -1 /tmp/seedcheck_demo.out )
+S=/tmp/seedcheck_$NAME.out
+mkdir -p /verif/work/seedlogs
+LOG=/verif/work/seedlogs/$NAME.log
+{
+rm -rf $M $S && cp -r /repo $M && rm -rf $M/.git && mkdir -p $S
+( cd $M && patch -p1 -s < "$SD/patch.diff" ) || { echo "PATCH DOES NOT APPLY"; rm -rf $M $S; exit 2; }
+echo "== tests with change (baseline: 54 passed, 2 failed [Rscript]):"; ( cd $M && /venv/bin/python -m pytest -q -p no:cacheprovider -n 6 --timeout=900 2>&1 | tail -1 )
+echo "== demo with change (expect non-zero):"; ( cd $M && PYTHONPATH=$M PYTHONDONTWRITEBYTECODE=1 /venv/bin/python "$SD/demo.py" >$S/demo.out 2>&1; echo "exit=$?"; tail -3 $S/demo.out | cut -c1-300 )
+echo "== demo on unchanged tree (expect 0):"; ( cd /repo && PYTHONPATH=/repo PYTHONDONTWRITEBYTECODE=1 /venv/bin/python "$SD/demo.py" >$S/demo.out 2>&1; echo "exit=$?"; tail -1 $S/demo.out | cut -c1-300 )
 for P in "$@"; do
   echo "== check $P on changed tree:"
-  SPOWTD_REPO=$M /verif/check $P 2>&1 | grep -E "^VIOLATION|^KNOWN|quick:|^  " | cut -c1-240 | head -6
+  VERIF_SCRATCH=$S SPOWTD_REPO=$M /verif/check $P --no-proofs ${TIER:+--tier $TIER} 2>&1 | grep -E "^VIOLATION|^KNOWN|quick:|thorough:|^  " | cut -c1-400 | head -8
 done
-rm -rf $M /tmp/seedcheck_demo.out
+rm -rf $M $S
+} > $LOG 2>&1
+cat $LOG
